@@ -28,7 +28,7 @@ func Register() {
 			"farm.stake_after_end_rejected", "farm.epilogue_unstakes", "farm.full_withdrawal", "farm.pool_future_start",
 			"farm.multi_denom_pool", "farm.destroy_with_stakers", "farm.pool_ended_with_stakers", "farm.huge_stake",
 			"farm.unstake_beyond_stake_rejected", "farm.multi_msg_tx_accepted", "farm.multi_msg_tx_rolled_back",
-			"farm.donation", "C13.farm_queue_checks"},
+			"C13.farm_queue_checks"},
 		Rule: "a run is non-trivial when more than two withdrawals within the recorded stake had their verdict compared (must succeed), more than four accepted stake/unstake messages had their balance sheet compared, and the per-pool stake sums and the escrow identity were compared after blocks; distinct = different fingerprint of the executed (operation kind, outcome class) sequence",
 	})
 	engine.RegisterProperty(&engine.Property{
